@@ -108,7 +108,7 @@ CHECKS = {
             "engine": "tensor-history",
             "design_ref": "DESIGN.md section 3, engine A",
             "level_text": "Seeded search over histories: each run drives a dense tensor and a sparse tensor in lock-step through 4-30 reads/writes in every documented key form (growth, order growth, zero writes, mixed batches, unsorted sparse storage, malformed requests as faults) and compares the full state of both with a dict-of-cells reference model after every step. A clean batch is evidence over the sampled histories, not a proof; violations are ddmin-minimised and replayed in fresh interpreters before being reported.",
-            "level_note": "Trusted: the reference model (sim/engine_a.py Model), numpy. Narrowings: no duplicate positions in one batch, no length-1 index lists, float64 or int64 values, slice strides only where nothing grows, negative slice bounds only in reads. 6% of the runs use tensors of several hundred elements with requests naming 200-1200 positions; 3% are sparse-only histories on modes of 2**24..2**40 (no dense twin; key forms for which the library materialises the extent of a mode are left out there). Two recorded known findings (dense multi-index-list regions) are driven through the subscript-array form on the dense side.",
+            "level_note": "Trusted: the reference model (sim/engine_a.py Model), numpy. Narrowings: no duplicate positions in one batch, no length-1 index lists, float64 or int64 values, slice strides and negative slice bounds only where nothing grows; index lists as python lists or numpy arrays; a tensor may be assigned into a region of itself. 6% of the runs use tensors of several hundred elements with requests naming 200-1200 positions; 3% are sparse-only histories on modes of 2**24..2**40 (no dense twin; key forms for which the library materialises the extent of a mode are left out there). Two recorded known findings (dense multi-index-list regions) are driven through the subscript-array form on the dense side.",
             "technique": "deterministic simulation: seeded history search against an executable reference model (refinement), ddmin + JSON replay",
         },
         "level": "exploration",
